@@ -110,8 +110,40 @@ func specVariant(rng *rand.Rand, k int) (*common.Spec, string) {
 		sp.BASE_REWARD_FACTOR = view.Uint64View(16 << uint(rng.Intn(4)))
 		sp.PROPOSER_REWARD_QUOTIENT = view.Uint64View(2 + rng.Intn(10))
 		sp.EJECTION_BALANCE = common.Gwei(uint64(8+rng.Intn(16)) * 1_000_000_000)
+	case 4:
+		// constants that coincide, or divide each other, in every published preset are pulled apart here: code that
+		// reads the wrong one of two equal constants, or replaces a floor division by a test that only agrees when one
+		// constant divides the other, is indistinguishable under the presets.
+		name = "apart"
+		pair := [][2]uint64{{6, 20}, {8, 20}, {6, 64}, {6, 20}}[rng.Intn(4)]
+		sp.SLOTS_PER_EPOCH = common.Slot(pair[0])           // does NOT divide SLOTS_PER_HISTORICAL_ROOT:
+		sp.SLOTS_PER_HISTORICAL_ROOT = common.Slot(pair[1]) // batch period floor(SPHR/SPE) = 3, 2 or 10 epochs
+		sp.EPOCHS_PER_HISTORICAL_VECTOR = 10                // minimal: equal to EPOCHS_PER_SLASHINGS_VECTOR (64)
+		sp.EPOCHS_PER_SLASHINGS_VECTOR = 7                  // odd: the halfway mark is a floor too
+		sp.EPOCHS_PER_ETH1_VOTING_PERIOD = 5                // 5*SPE slots, unrelated to SPHR
+		sp.EPOCHS_PER_SYNC_COMMITTEE_PERIOD = 4             // periods 4 / 5 / floor(SPHR/SPE) pairwise different
+		sp.SYNC_COMMITTEE_SIZE = 10
+		sp.MIN_EPOCHS_TO_INACTIVITY_PENALTY = 2 // minimal: 4 = MAX_SEED_LOOKAHEAD = EPOCHS_PER_ETH1_VOTING_PERIOD
+		sp.MAX_SEED_LOOKAHEAD = 6
+		sp.MIN_VALIDATOR_WITHDRAWABILITY_DELAY = 9
+		sp.MIN_PER_EPOCH_CHURN_LIMIT = 2
+		sp.CHURN_LIMIT_QUOTIENT = 6
+		sp.MAX_PER_EPOCH_ACTIVATION_CHURN_LIMIT = 3
+		sp.TARGET_COMMITTEE_SIZE = 3
+		sp.MAX_COMMITTEES_PER_SLOT = 3
+		// electra's MIN_ACTIVATION_BALANCE stays 32 ETH: hysteresis / activation code reading it instead shows
+		sp.MAX_EFFECTIVE_BALANCE = 40_000_000_000
+		sp.EJECTION_BALANCE = 17_000_000_000
+		sp.HYSTERESIS_QUOTIENT = 5
+		sp.HYSTERESIS_DOWNWARD_MULTIPLIER = 2
+		sp.HYSTERESIS_UPWARD_MULTIPLIER = 6
 	}
 	return &sp, name
+}
+
+// batchPeriod is floor(SLOTS_PER_HISTORICAL_ROOT / SLOTS_PER_EPOCH), the historical accumulators' period in epochs.
+func batchPeriod(sp *common.Spec) uint64 {
+	return uint64(sp.SLOTS_PER_HISTORICAL_ROOT) / uint64(sp.SLOTS_PER_EPOCH)
 }
 
 // setForks makes `fork` the scheduled fork at `epoch`; the next fork is scheduled `nextIn` epochs later (0 = never).
@@ -694,6 +726,12 @@ func shapeStats(st *hreg.Stats, sp *common.Spec, s *flat.State) {
 	}
 	if (cur+1)%(uint64(sp.SLOTS_PER_HISTORICAL_ROOT)/spe) == 0 {
 		st.Add("history", "historical-batch-boundary")
+		if uint64(sp.SLOTS_PER_HISTORICAL_ROOT)%spe != 0 {
+			st.Add("history", "historical-batch-boundary-spe-not-dividing-sphr")
+		}
+	} else if uint64(sp.SLOTS_PER_HISTORICAL_ROOT)%spe != 0 && ((cur+1)*spe)%uint64(sp.SLOTS_PER_HISTORICAL_ROOT) == 0 {
+		// the start slot of the next epoch wraps the roots vector, but no batch is due (floor period)
+		st.Add("history", "roots-vector-wraps-but-no-batch-due")
 	}
 	st.Add("epoch", bucket(int(cur), []int{0, 1, 2, 3, 8, 32}))
 	st.Add("validators", strconv.Itoa(len(s.Validators)))
@@ -729,10 +767,11 @@ func gen(o hreg.Opts, w *bufio.Writer) error {
 	nStates := o.Pick(30, 150) // per fork
 	for forkIdx := 0; forkIdx < 5; forkIdx++ {
 		for i := 0; i < nStates; i++ {
-			sp, spName := specVariant(rng, []int{0, 0, 1, 2, 3}[i%5])
+			variant := []int{0, 4, 1, 2, 3}[i%5]
+			sp, spName := specVariant(rng, variant)
 			spe := uint64(sp.SLOTS_PER_EPOCH)
-			epoch := uint64([]int{0, 1, 2, 3, 5, 7, 8, 15, 23, 40}[rng.Intn(10)])
-			if i%7 == 3 {
+			epoch := uint64([]int{0, 1, 2, 3, 5, 7, 8, 9, 15, 19, 23, 40}[rng.Intn(12)])
+			if i%7 == 3 || (variant == 4 && i%2 == 0) {
 				// sit on a sync-committee / historical-batch boundary
 				per := uint64(sp.EPOCHS_PER_SYNC_COMMITTEE_PERIOD)
 				if rng.Intn(2) == 0 {
@@ -769,9 +808,15 @@ func gen(o hreg.Opts, w *bufio.Writer) error {
 	nSlots := o.Pick(80, 500)
 	for i := 0; i < nSlots; i++ {
 		forkIdx := rng.Intn(5)
-		sp, spName := specVariant(rng, []int{0, 1, 1, 2, 3}[i%5])
+		variant := []int{0, 1, 4, 2, 3}[i%5]
+		sp, spName := specVariant(rng, variant)
 		spe := uint64(sp.SLOTS_PER_EPOCH)
 		epoch := uint64([]int{0, 1, 2, 3, 5, 7, 8, 15, 23}[rng.Intn(9)])
+		crossBatch := variant == 4 && i%3 != 0
+		if crossBatch {
+			// the run ends an epoch whose successor is a multiple of the (floor) batch period
+			epoch = batchPeriod(sp)*uint64(1+rng.Intn(5)) - 1
+		}
 		nextIn := uint64(0)
 		if forkIdx < 4 && rng.Intn(3) != 0 {
 			nextIn = uint64(1 + rng.Intn(3))
@@ -791,9 +836,15 @@ func gen(o hreg.Opts, w *bufio.Writer) error {
 		if rng.Intn(4) == 0 {
 			span = 3*spe + uint64(rng.Intn(int(spe)))
 		}
+		if crossBatch && span < spe {
+			span = spe + uint64(rng.Intn(int(2*spe)))
+		}
 		target := slot + span
 		e, steps, crossed := extrasForSlots(sp, s, target)
 		st.Add("spec", spName)
+		if p := batchPeriod(sp); uint64(sp.SLOTS_PER_HISTORICAL_ROOT)%spe != 0 && target/spe/p > slot/spe/p {
+			st.Add("slots-cross-batch-boundary-spe-not-dividing-sphr", s.Fork)
+		}
 		st.Add("slots-span-epochs", strconv.Itoa(int(target/spe-slot/spe)))
 		st.Add("slots-forks-crossed", strconv.Itoa(crossed))
 		if uint64(steps) < span {
@@ -806,7 +857,7 @@ func gen(o hreg.Opts, w *bufio.Writer) error {
 	// spans that cross three or four fork boundaries (consecutive or coinciding fork epochs)
 	nMulti := o.Pick(10, 60)
 	for i := 0; i < nMulti; i++ {
-		sp, spName := specVariant(rng, []int{0, 1, 3}[i%3])
+		sp, spName := specVariant(rng, []int{0, 1, 3, 4}[i%4])
 		spe := uint64(sp.SLOTS_PER_EPOCH)
 		epoch := uint64(1 + rng.Intn(6))
 		forkIdx := rng.Intn(2) // start in phase0 or altair
@@ -837,7 +888,7 @@ func gen(o hreg.Opts, w *bufio.Writer) error {
 	nUp := o.Pick(16, 80)
 	for i := 0; i < nUp; i++ {
 		forkIdx := i % 4
-		sp, _ := specVariant(rng, []int{0, 1, 3}[i%3])
+		sp, _ := specVariant(rng, []int{0, 1, 3, 0, 4}[i%5])
 		spe := uint64(sp.SLOTS_PER_EPOCH)
 		epoch := uint64(1 + rng.Intn(9))
 		setForks(sp, forkIdx, epoch, 0, rng)
